@@ -18,7 +18,7 @@ RULE = ("machine: Hypothesis rule-based state machine over the ten domain operat
         "normalize_x/y, repeat, truncate by value on-/off-grid or by ratio, truncate by index) with admissible "
         "generated arguments, up to 8 steps on series of 4..30 points, closed by a terminal recreate+match (+ one "
         "more reshaping operation) step; invariant after every step. alphabet: all sequences of length 0..2 (quick) "
-        "/ 0..3 (thorough) over 20 concrete letters x 3 base series, enumerated completely. commute: shift/scale "
+        "/ 0..4 (thorough) over 20 concrete letters x 3 base series, enumerated completely. commute: shift/scale "
         "before vs after recreate+match. Non-trivial = history with >= 2 different operation kinds of which at "
         "least one changes the length; distinct = distinct trace.")
 ASSUMPTIONS = ["arguments admissible: scale_x > 0, scale_y != 0, min_val < max_val, non-constant data for "
@@ -392,7 +392,7 @@ TERMINALS = [("ExpAdaptiveRFA", 4, "trapezoid"), ("LinearFixedRFA", 3, "rectangl
 
 
 def alphabet_cases(ctx, shard, nshards):
-    maxlen = ctx.pick(2, 3)
+    maxlen = ctx.pick(2, 4)
     idx = 0
     for b in range(len(BASES)):
         for L in range(maxlen + 1):
@@ -495,7 +495,7 @@ SUBCHECKS = [
         clause="after every domain operation working == reference == transformed original; original intact; "
                "reshaping never alters the reference; recreate+match reproduces the transformed averages"),
     Sub("alphabet", "enum", alphabet_body, cases=alphabet_cases, shards=16, exhaustive=True,
-        clause="same, all histories of length <= 2 (quick) / <= 3 (thorough) over 20 letters x 3 base series"),
+        clause="same, all histories of length <= 2 (quick) / <= 4 (thorough) over 20 letters x 3 base series"),
     Sub("commute", "hyp", commute_body, strategy=commute_case, quick=500, thorough=12000,
         clause="shifting or scaling commutes with the recreate+match pipeline"),
 ]
